@@ -129,6 +129,10 @@ def havoc(ex, st, hset, tag):
                     n_ = n[1]
                 else:
                     n_ = n
+                if n_ in f and 'ENT' in f and 'UNK' in f and 'VER' in f:
+                    # a local dictionary written in the loop: unknown contents at the loop head
+                    f['ENT'], f['UNK'], f['VER'] = (), True, f['VER'] + 1 + len(st.pc)
+                    continue
                 if n_ in f:
                     n = n_
                     nv = fresh_like(ex, f[n], n)
